@@ -186,7 +186,10 @@ def run_property(pid, P, tier, seed):
                     out["functions"].append(f)
             expect_kf = h.get("known_finding")
             if r["status"] in ("timeout", "missing", "unknown"):
-                out["undecided"].append("K: harness %s: %s" % (h["name"], r["status"]))
+                if h.get("optional"):
+                    out.setdefault("optional_undecided", []).append("%s: %s within %ds (optional deep harness: not decided, not counted)" % (h["name"], r["status"], h.get("timeout", 300)))
+                else:
+                    out["undecided"].append("K: harness %s: %s" % (h["name"], r["status"]))
                 continue
             if r["status"] == "pass" and r["cover_unsat"]:
                 out["undecided"].append("K: harness %s: vacuity cover unsatisfiable (preconditions contradictory)" % h["name"])
